@@ -40,6 +40,16 @@ MULTI = {"core::iter::traits::iterator::Iterator::chain": (0, 1)}
 CARRIER_NAMES = ("merge_by_ref", "merge", "try_merge", "new")
 
 
+def is_self_accessor(hb):
+    """a one-argument helper whose result is (a part of) its argument, reached through take / unwrap / borrow only"""
+    if hb.arg_count != 1:
+        return False
+    o = Prov(hb, adapters=ORDER_ADAPTERS, adapter_pred=lambda t: (t.get("callee") or {}).get("name") in (
+        "as_ref", "deref", "borrow", "as_mut", "deref_mut", "unwrap", "expect", "take")).local(0)
+    o = {x for x in o if x[0] != "via"}
+    return bool(o) and all(x[0] == "arg" and x[1] == 1 for x in o)
+
+
 def trait_name(t):
     return (t or "").rsplit("::", 1)[-1]
 
@@ -168,6 +178,9 @@ def check_forwarder(ctx, F, imp, b, tn, m, tgt, kind, key):
             h = b.locals[c.dest["l"]].get("head", {})
             if h.get("adt") in WRAPPER_ADTS and local_callee_bodies(F, c):
                 pr.multi[c.def_] = tuple(range(len(c.args)))
+            elif len(c.args) == 1 and local_callee_bodies(F, c) and all(is_self_accessor(hb) for hb in local_callee_bodies(F, c)):
+                # private accessor of the wrapper: hands out (a part of) `self`, e.g. `fn take_writer(&mut self) -> W { self.0.take().unwrap() }`
+                pr.multi[c.def_] = (0,)
     st = imp["self_ty"]
     def same_family(t):
         t = trait_name(t)
